@@ -38,10 +38,19 @@ Took(name) == acts' = acts \cup {name}
 \* objects of generation 1, at most refs optional reference slots filled, further objects with slots
 \* A and B (two) or only A, at most bms bookmarks, zero: the (0,0) bookmark target is offered,
 \* red: reduction -- catalog number < root number and both of generation 0 (the algorithm treats all
-\* non-page objects alike), shared: two objects may share a number (with different generations).
+\* non-page objects alike), shared: two objects may share a number (with different generations),
+\* deep: every optional reference slot holds its reference as the innermost leaf of this many nested
+\* arrays / dictionaries (Deep(L, 47): the reference sits in the 48th container of its indirect object,
+\* resp. the 47th below the trailer -- the parser's nesting limit).
 Lay(n, k, tree, nums, g1, refs, two, bms, zero, red) ==
     [n |-> n, k |-> k, tree |-> tree, nums |-> nums, g1 |-> g1, refs |-> refs, two |-> two, bms |-> bms,
-     zero |-> zero, red |-> red, shared |-> FALSE]
+     zero |-> zero, red |-> red, shared |-> FALSE, deep |-> 0]
+Deep(L, d) == [L EXCEPT !.deep = d]
+
+\* small page tree whose slots are nested d deep / whose <= 3 bookmarks include the (0,0) target (the
+\* harness hangs the bookmarks of a case together as roots, children, grandchildren or loose entries)
+LayDeep(d) == Deep(Lay(3, 1, TRUE, {1, 3, 5}, 0, 1, FALSE, 1, FALSE, TRUE), d)
+LayBm3     == Lay(4, 2, TRUE, {1, 2, 3, 5}, 0, 0, FALSE, 3, TRUE, TRUE)
 
 LayoutsQuick ==
     {Lay(0, 0, FALSE, {1}, 0, 1, FALSE, 0, FALSE, TRUE),
@@ -49,7 +58,8 @@ LayoutsQuick ==
      Lay(2, 0, FALSE, {1, 3}, 1, 2, FALSE, 0, FALSE, TRUE),
      Lay(3, 1, TRUE, {1, 2, 3, 5}, 1, 1, FALSE, 1, FALSE, TRUE),
      Lay(4, 2, TRUE, {1, 2, 3, 5}, 1, 1, FALSE, 2, FALSE, TRUE),
-     Lay(4, 1, TRUE, {1, 2, 3, 5}, 0, 1, FALSE, 1, FALSE, TRUE)}
+     Lay(4, 1, TRUE, {1, 2, 3, 5}, 0, 1, FALSE, 1, FALSE, TRUE),
+     LayDeep(47), LayBm3}
 
 LayoutsThorough ==
     {Lay(0, 0, FALSE, {1}, 0, 1, FALSE, 0, FALSE, FALSE),
@@ -60,8 +70,9 @@ LayoutsThorough ==
      Lay(4, 2, TRUE, {1, 2, 3, 5}, 1, 2, FALSE, 2, TRUE, TRUE),
      Lay(4, 2, TRUE, {1, 2, 3, 5}, 2, 1, FALSE, 2, FALSE, TRUE),
      Lay(4, 1, TRUE, {1, 2, 3, 5}, 1, 2, FALSE, 1, FALSE, TRUE),
-     Lay(5, 3, TRUE, {1, 2, 3, 4, 6}, 1, 1, FALSE, 2, FALSE, TRUE),
-     Lay(5, 2, TRUE, {1, 2, 3, 4, 6}, 0, 1, FALSE, 2, FALSE, TRUE)}
+     Lay(5, 3, TRUE, {1, 2, 3, 4, 6}, 1, 1, FALSE, 3, FALSE, TRUE),
+     Lay(5, 2, TRUE, {1, 2, 3, 4, 6}, 0, 1, FALSE, 2, FALSE, TRUE),
+     LayDeep(1), LayDeep(2), LayDeep(10), LayDeep(46), LayDeep(47), LayBm3}
 
 \* smallest layout that takes every action (coverage run)
 LayoutsCov == {Lay(0, 0, FALSE, {1}, 0, 0, FALSE, 0, FALSE, TRUE), Lay(4, 2, TRUE, {1, 2, 3, 5}, 0, 0, FALSE, 1, FALSE, TRUE)}
@@ -92,7 +103,13 @@ Name(bytes) == [k |-> "name", v |-> bytes]
 IntObj(x)      == [k |-> "int", v |-> ToString(x)]
 KN          == <<78>>
 
-Opt(key, id) == IF id = NoId THEN <<>> ELSE << <<key, MkRef(id)>> >>
+\* o inside d nested containers: arrays, every fourth level a dictionary (the wire JSON of a dictionary
+\* level is one level deeper than that of an array level, and the harness's JSON reader stops at 128)
+RECURSIVE Wrap(_, _)
+Wrap(o, d) == IF d = 0 THEN o
+              ELSE IF d % 4 = 0 THEN [k |-> "dict", v |-> << <<KA, Wrap(o, d - 1)>> >>]
+              ELSE [k |-> "arr", v |-> <<Wrap(o, d - 1)>>]
+OptW(key, id, d) == IF id = NoId THEN <<>> ELSE << <<key, Wrap(MkRef(id), d)>> >>
 SlotOf(sl, x) == IF x \in DOMAIN sl THEN sl[x] ELSE NoId
 
 ObjOfRole(L, idf, sl, r) ==
@@ -103,14 +120,14 @@ ObjOfRole(L, idf, sl, r) ==
                                  <<KKids, [k |-> "arr", v |-> [j \in 1..L.k |-> MkRef(idf[2 + j])]]>>,
                                  <<KType, Name(KPages)>> >>]
     ELSE IF r \in PageRoles(L)
-    THEN [k |-> "dict", v |-> Opt(KA, SlotOf(sl, <<r, "A">>)) \o
+    THEN [k |-> "dict", v |-> OptW(KA, SlotOf(sl, <<r, "A">>), L.deep) \o
                               << <<KN, IntObj(r)>>, <<KParent, MkRef(idf[2])>>, <<KType, Name(KPage)>> >>]
-    ELSE [k |-> "dict", v |-> Opt(KA, SlotOf(sl, <<r, "A">>)) \o Opt(KB, SlotOf(sl, <<r, "B">>)) \o
+    ELSE [k |-> "dict", v |-> OptW(KA, SlotOf(sl, <<r, "A">>), L.deep) \o OptW(KB, SlotOf(sl, <<r, "B">>), L.deep) \o
                               << <<KN, IntObj(r)>> >>]
 
 BuildDoc(L, idf, sl, bms) ==
     LET objs    == [id \in {idf[r] : r \in Roles(L)} |-> ObjOfRole(L, idf, sl, CHOOSE r \in Roles(L) : idf[r] = id)]
-        trailer == Opt(KInfo, SlotOf(sl, <<0, "I">>)) \o (IF L.tree THEN << <<KRoot, MkRef(idf[1])>> >> ELSE <<>>)
+        trailer == OptW(KInfo, SlotOf(sl, <<0, "I">>), L.deep) \o (IF L.tree THEN << <<KRoot, MkRef(idf[1])>> >> ELSE <<>>)
         maxn    == IF L.n = 0 THEN 0 ELSE CHOOSE m \in {idf[r][1] : r \in Roles(L)} : \A r \in Roles(L) : idf[r][1] <= m
     IN [objs |-> objs, trailer |-> trailer, max_id |-> maxn, bms |-> bms, pages |-> DeclPages(objs, trailer)]
 
@@ -151,6 +168,8 @@ BmTargets == {ids[r] : r \in PageRoles(lay)} \cup (IF lay.zero THEN {<<0, 0>>} E
 BmChoices == {<<>>}
              \cup (IF lay.bms >= 1 THEN {<<t>> : t \in BmTargets} ELSE {})
              \cup (IF lay.bms >= 2 THEN {<<p[1], p[2]>> : p \in {q \in BmTargets \X BmTargets : IdLess(q[1], q[2])}} ELSE {})
+             \cup (IF lay.bms >= 3 THEN {<<p[1], p[2], p[3]>> : p \in {q \in BmTargets \X BmTargets \X BmTargets :
+                                                                      IdLess(q[1], q[2]) /\ IdLess(q[2], q[3])}} ELSE {})
 
 \* bookmarks and the start value: the call begins
 Build3 ==
